@@ -69,7 +69,8 @@ def binding_demo(results, cap, lenient_done=False):
   base = None
   for tid, r in results:
     ev = r["ev"]
-    if sum(1 for e in ev if e[0] == "disp") >= 2 and sum(1 for e in ev if e[0] == "qop" and e[2] == "popleft") >= 2 and r["outcome"] == "quiescent":
+    if sum(1 for e in ev if e[0] == "disp") >= 2 and sum(1 for e in ev if e[0] == "qop" and e[2] == "popleft") >= 2 and r["outcome"] == "quiescent" \
+       and any(e[0] == "disp" and any(f[0] == "qop" and f[2] == "popleft" and f[1] == e[1] for f in ev[k + 1:]) for k, e in enumerate(ev)):
       base = (tid, r)
       break
   if base is None:
@@ -77,7 +78,10 @@ def binding_demo(results, cap, lenient_done=False):
   tid, r = base
   variants = []
   ev = r["ev"]
-  i = next(k for k, e in enumerate(ev) if e[0] == "disp")
+  # drop a dispatch record that is followed by another pop of the same object: the pop then finds the previous event still undispatched
+  i = next((k for k, e in enumerate(ev) if e[0] == "disp" and any(f[0] == "qop" and f[2] == "popleft" and f[1] == e[1] for f in ev[k + 1:])), None)
+  if i is None:
+    return None
   variants.append(("dispatch record dropped", ev[:i] + ev[i + 1:]))
   j = next(k for k, e in enumerate(ev) if e[0] == "qop" and e[2] in ("append", "appendleft") and len(e[5]) >= 2)if any(e[0] == "qop" and e[2] in ("append", "appendleft") and len(e[5]) >= 2 for e in ev) else None
   if j is not None:
